@@ -83,11 +83,6 @@ pub enum OutputFormatType {
     Junit,
     Sarif,
 }
-// ---- type guard/src/commands/validate.rs::RuleFileInfo
-pub struct RuleFileInfo {
-    pub content: String,
-    pub file_name: String,
-}
 // ---- type guard/src/commands/validate.rs::DataFile
 pub struct DataFile {
     pub content: String,
@@ -114,31 +109,83 @@ pub open spec fn some_fail(rules: RulesFile, extra: Option<PathAwareValue>, file
 pub open spec fn overall_spec(rules: RulesFile, extra: Option<PathAwareValue>, files: Seq<DataFile>) -> Status {
     if some_fail(rules, extra, files, files.len() as int) { Status::FAIL } else { Status::PASS }
 }
-// ---- const FAILURE_STATUS_CODE
-pub const FAILURE_STATUS_CODE: i32 = 19;
-// ---- const SUCCESS_STATUS_CODE
-pub const SUCCESS_STATUS_CODE: i32 = 0;
-// ---- const ERROR_STATUS_CODE
-pub const ERROR_STATUS_CODE: i32 = 5;
-// ---- stub guard/src/commands/validate.rs::parse_rules
+// ---- raw prelude_validate_data.rs
+// hand-written prelude of the `validate_data` group (C06): everything evaluate_against_data_input touches besides the
+// status fold is opaque. R5n: eval_rules_file receives `&mut root_scope` as &mut dyn EvalContext; the stub is narrowed to
+// the (opaque) RootScope. R10r: the construction of the Box<dyn Reporter> chain is replaced by verif_reporter() -- which
+// reporter renders the result has no influence on the returned status (report_eval only returns Ok / Err).
+use std::rc::Rc;
+
+impl Clone for PathAwareValue {
+    #[verifier::external_body]
+    fn clone(&self) -> (r: Self)
+        ensures r == *self,
+    { unimplemented!() }
+}
+
+impl PathAwareValue {
+    // ASSUMED contract (proved on the real function by U-merge, group `merge`): an uninterpreted function of the operands
+    #[verifier::external_body]
+    pub fn merge(self, other: PathAwareValue) -> (r: Result<PathAwareValue>)
+        ensures r is Ok ==> r->Ok_0 == merged(self, other),
+    { unimplemented!() }
+}
+
 #[verifier::external_body]
-pub fn parse_rules<'r>(
-    rules_file_content: &'r str,
-    rules_file_name: &'r str,
-) -> (res: Result<Option<RulesFile<'r>>>)
-    ensures
-        (res is Err) == (parse_sem(rules_file_content@, rules_file_name@) is None),
-        res is Ok ==> (res->Ok_0 is None) == (parse_sem(rules_file_content@, rules_file_name@) == Some(None::<RulesFile<'static>>)),
-        res is Ok && res->Ok_0 is Some ==> parse_sem(rules_file_content@, rules_file_name@) == Some(Some(res->Ok_0->Some_0)),
+pub struct Traversal<'value> { _p: &'value u8 }
+impl<'value> From<&'value PathAwareValue> for Traversal<'value> {
+    #[verifier::external_body]
+    fn from(v: &'value PathAwareValue) -> (r: Self) { unimplemented!() }
+}
+
+#[verifier::external_body]
+pub struct EventRecord<'value> { _p: &'value u8 }
+#[verifier::external_body]
+pub struct RecordTracker<'value> { _p: &'value u8 }
+impl<'value> RecordTracker<'value> {
+    // ASSUMPTION: the record tree is closed when eval_rules_file returns Ok (C02; `extract` unwraps final_event)
+    #[verifier::external_body]
+    pub fn extract(self) -> (r: EventRecord<'value>) { unimplemented!() }
+}
+
+#[verifier::external_body]
+pub struct RootScope<'value, 'loc: 'value> { _p: &'value &'loc u8 }
+impl<'value, 'loc: 'value> RootScope<'value, 'loc> {
+    pub uninterp spec fn rules(&self) -> RulesFile<'loc>;
+    pub uninterp spec fn doc(&self) -> PathAwareValue;
+    #[verifier::external_body]
+    pub fn reset_recorder(&mut self) -> (r: RecordTracker<'value>) { unimplemented!() }
+}
+
+#[verifier::external_body]
+pub fn root_scope<'value, 'loc: 'value>(rules_file: &'value RulesFile<'loc>, root: Rc<PathAwareValue>) -> (r: RootScope<'value, 'loc>)
+    ensures r.rules() == *rules_file, r.doc() == *root,
 { unimplemented!() }
-// ---- canary canary:callee:parse_rules
-pub fn parse_rules__canary<'r>(
-    rules_file_content: &'r str,
-    rules_file_name: &'r str,
-) -> (res: Result<Option<RulesFile<'r>>>)
-{ let r = parse_rules(rules_file_content, rules_file_name); assert(false); r }
-// ---- stub guard/src/commands/validate.rs::evaluate_against_data_input
+
 #[verifier::external_body]
+pub fn eval_rules_file<'value, 'loc: 'value>(rule: &'value RulesFile<'loc>, resolver: &mut RootScope<'value, 'loc>, data_file_name: Option<&'value String>) -> (r: Result<Status>)
+    ensures r is Ok ==> r->Ok_0 == file_sem(*rule, old(resolver).doc()),
+{ unimplemented!() }
+
+#[verifier::external_body]
+pub struct Reporter { _p: u8 }
+impl Reporter {
+    #[verifier::external_body]
+    pub fn report_eval<'value>(&self, write: &mut Writer, status: Status, root_record: &EventRecord<'value>, rules_file: &str,
+        data_file: &str, data_file_bytes: &str, data: &Traversal<'value>, output_type: OutputFormatType) -> (r: Result<()>)
+    { unimplemented!() }
+}
+#[verifier::external_body]
+pub fn verif_reporter(summary_table: BitFlags<SummaryType>) -> (r: Reporter) { unimplemented!() }
+
+#[verifier::external_body]
+pub fn print_verbose_tree<'value>(root: &EventRecord<'value>, writer: &mut Writer) { unimplemented!() }
+
+// stands for `writeln!(write_output, "{}", serde_json::to_string_pretty(&root_record)?).expect(..)`:
+// Err = the serde error that `?` propagates. ASSUMPTION: writing to the output does not fail (the real code panics there)
+#[verifier::external_body]
+pub fn verif_write_json<'value>(writer: &mut Writer, root: &EventRecord<'value>) -> (r: Result<()>) { unimplemented!() }
+// ---- fn guard/src/commands/validate.rs::evaluate_against_data_input
 fn evaluate_against_data_input<'r>(
     _data_type: Type,
     output: OutputFormatType,
@@ -153,8 +200,50 @@ fn evaluate_against_data_input<'r>(
 ) -> (res: Result<Status>)
     ensures
         res is Ok ==> res->Ok_0 == overall_spec(*rules, *extra_data, data_files@),
-{ unimplemented!() }
-// ---- canary canary:callee:evaluate_against_data_input
+{
+    let mut overall = Status::PASS;
+        let reporter = verif_reporter(summary_table);
+
+    for file in it: data_files
+        invariant
+            it.seq().len() == data_files@.len(),
+            forall|i: int| 0 <= i < it.seq().len() ==> *(#[trigger] it.seq()[i]) == data_files@[i],
+            overall == (if some_fail(*rules, *extra_data, data_files@, it.index@ as int) { Status::FAIL } else { Status::PASS }),
+{
+        let each = match &extra_data {
+            Some(data) => data.clone().merge(file.path_value.clone())?,
+            None => file.path_value.clone(),
+        };
+        let traversal = Traversal::from(&each);
+        let mut root_scope = root_scope(rules, Rc::new(each.clone()));
+        let status = eval_rules_file(rules, &mut root_scope, Some(&file.name))?;
+
+        let root_record = root_scope.reset_recorder().extract();
+
+        reporter.report_eval(
+            write_output,
+            status,
+            &root_record,
+            rules_file_name,
+            &file.name,
+            &file.content,
+            &traversal,
+            output,
+        )?;
+
+        if verbose {
+            print_verbose_tree(&root_record, write_output);
+        }
+
+        if print_json {
+                        verif_write_json(write_output, &root_record)?;
+        }
+
+        overall = status;
+    }
+    Ok(overall)
+}
+// ---- canary canary:pre:evaluate_against_data_input
 fn evaluate_against_data_input__canary<'r>(
     _data_type: Type,
     output: OutputFormatType,
@@ -167,69 +256,6 @@ fn evaluate_against_data_input__canary<'r>(
     summary_table: BitFlags<SummaryType>,
     mut write_output: &mut Writer,
 ) -> (res: Result<Status>)
-{ let r = evaluate_against_data_input(_data_type, output, extra_data, data_files, rules, rules_file_name, verbose, print_json, summary_table, write_output); assert(false); r }
-// ---- fn guard/src/commands/validate.rs::evaluate_rule
-fn evaluate_rule(
-    data_type: Type,
-    output: OutputFormatType,
-    extra_data: &Option<PathAwareValue>,
-    data_files: &Vec<DataFile>,
-    rule: RuleFileInfo,
-    verbose: bool,
-    print_json: bool,
-    summary_type: BitFlags<SummaryType>,
-    writer: &mut Writer,
-) -> (res: Result<i32>)
-    ensures
-        res is Ok && parse_sem(rule.content@, rule.file_name@) is None ==> res->Ok_0 == ERROR_STATUS_CODE,
-        res is Ok && parse_sem(rule.content@, rule.file_name@) == Some(None::<RulesFile<'static>>) ==> res->Ok_0 == SUCCESS_STATUS_CODE,
-        res is Ok && parse_sem(rule.content@, rule.file_name@) is Some && parse_sem(rule.content@, rule.file_name@)->Some_0 is Some ==>
-            res->Ok_0 == (if overall_spec(parse_sem(rule.content@, rule.file_name@)->Some_0->Some_0, *extra_data, data_files@) == Status::FAIL { FAILURE_STATUS_CODE } else { SUCCESS_STATUS_CODE }),
-        res is Ok ==> res->Ok_0 == SUCCESS_STATUS_CODE || res->Ok_0 == ERROR_STATUS_CODE || res->Ok_0 == FAILURE_STATUS_CODE,
-{
-    let RuleFileInfo { content, file_name } = &rule;
-    match parse_rules(content, file_name) {
-        Err(e) => {
-            writer.write_err(verif_fmt())?;
-
-            return Ok(ERROR_STATUS_CODE);
-        }
-
-        Ok(Some(rule)) => {
-            let status = evaluate_against_data_input(
-                data_type,
-                output,
-                extra_data,
-                data_files,
-                &rule,
-                file_name,
-                verbose,
-                print_json,
-                summary_type,
-                writer,
-            )?;
-
-            if status == Status::FAIL {
-                return Ok(FAILURE_STATUS_CODE);
-            }
-        }
-        Ok(None) => return Ok(SUCCESS_STATUS_CODE),
-    }
-
-    Ok(SUCCESS_STATUS_CODE)
-}
-// ---- canary canary:pre:evaluate_rule
-fn evaluate_rule__canary(
-    data_type: Type,
-    output: OutputFormatType,
-    extra_data: &Option<PathAwareValue>,
-    data_files: &Vec<DataFile>,
-    rule: RuleFileInfo,
-    verbose: bool,
-    print_json: bool,
-    summary_type: BitFlags<SummaryType>,
-    writer: &mut Writer,
-) -> (res: Result<i32>)
 { assert(false); vstd::pervasive::unreached() }
 } // verus!
 fn main() {}
